@@ -113,6 +113,18 @@ fn c08_group_order_key() {
     w3.frag_grouped_output();
     assert!(w3.results_writer.n == 3 && w3.results_writer.rows[0].0 == 9 && w3.results_writer.rows[1].0 == 10 && w3.results_writer.rows[2].0 == 12, "OBL C08.group.order: a numeric key sorts by value, not as text");
 }
+// two ORDER BY keys with DIFFERENT directions, the groups tying on the first one: each key keeps its own direction
+#[kani::proof]
+#[kani::unwind(9)]
+fn c08_group_order_mixed() {
+    kani::cover!(true);
+    let mut q4 = query(false, Some((7, false)));     // ORDER BY COUNT(*) DESC, key ASC: three groups of one row each tie on the count
+    { let mut of = SVec::new(); of.push(Expr { id: 7 }); of.push(Expr { id: 5 }); let mut oa = SVec::new(); oa.push(false); oa.push(true);
+      q4.ordering_fields = SRc::new(of); q4.ordering_asc = SRc::new(oa); }
+    let mut w4 = world(&q4, one_key_rows([2, 1, 3]));
+    w4.frag_grouped_output();
+    assert!(w4.results_writer.n == 3 && w4.results_writer.rows[0] == (1, 1) && w4.results_writer.rows[1] == (2, 1) && w4.results_writer.rows[2] == (3, 1), "OBL C08.group.order.mixed: ties on a descending first key are ordered by the ascending second key");
+}
 #[kani::proof]
 #[kani::unwind(9)]
 fn canary_grouprows_must_fail() {
